@@ -31,6 +31,8 @@ for prop in sorted(os.listdir(SRC)):
         out = os.path.join(here, "seeded", f"{prop}-{k}")
         os.makedirs(out, exist_ok=True)
         for f in ("patch.diff", "demo.py", "notes.md"):
+            if f == "patch.diff" and os.path.exists(os.path.join(out, "patch.original.diff")):
+                continue        # rebased onto a later tree: keep the rebased one
             if os.path.exists(os.path.join(md, f)):
                 shutil.copy(os.path.join(md, f), os.path.join(out, f))
         notes = open(os.path.join(md, "notes.md")).read() if os.path.exists(os.path.join(md, "notes.md")) else ""
